@@ -19,8 +19,10 @@ import (
 )
 
 type Ctx struct {
-	W *ir.World
-	R *check.Result
+	restrictMemo  map[[2]any][]any
+	altsStopVocab bool // altsAtCtx: treat the results of the types packages' exported functions as leaves
+	W             *ir.World
+	R             *check.Result
 
 	rootedSet      map[*ssa.Function]bool
 	hold           *holderTypes
@@ -230,6 +232,9 @@ type Inst struct {
 	Eff   ir.Effect
 	E     *ir.Expr
 	Chain []ssa.Instruction
+	// R: E with the alternatives taken out that contradict how the flat view of the root reaches the site (a verdict the
+	// caller turned away, an ok that was false): see restrictAtSite. Equal to E when nothing is narrowed.
+	R *ir.Expr
 }
 
 // instantiate computes, for every effect accepted by pred and reachable from root through
@@ -252,12 +257,16 @@ func instantiate(c *Ctx, root *ssa.Function, pred func(ir.Effect) bool, sel func
 				continue
 			}
 			if f == root {
-				out = append(out, Inst{Eff: e, E: x})
+				out = append(out, Inst{Eff: e, E: x, R: restrictAtSite(c, root, e.Site, x)})
 				continue
 			}
 			ups := c.W.OriginsUpTo(f, x, root, 8)
 			for _, up := range ups {
-				out = append(out, Inst{Eff: e, E: up.E, Chain: up.Chain})
+				ur := up.E
+				if len(up.Chain) > 0 {
+					ur = restrictAtSite(c, root, up.Chain[0], ur)
+				}
+				out = append(out, Inst{Eff: e, E: up.E, Chain: up.Chain, R: ur})
 			}
 			if len(ups) == 0 {
 				// not reached by direct calls (a closure handed to a helper that calls it): locate the occurrences on the
@@ -271,7 +280,7 @@ func instantiate(c *Ctx, root *ssa.Function, pred func(ir.Effect) bool, sel func
 						for cx := p.Ctx; cx != nil && cx.Call != nil; cx = cx.Up {
 							chain = append([]ssa.Instruction{cx.Call}, chain...)
 						}
-						out = append(out, Inst{Eff: e, E: p.Ctx.Apply(x), Chain: chain})
+						out = append(out, Inst{Eff: e, E: p.Ctx.Apply(x), Chain: chain, R: p.Ctx.Apply(x)})
 					}
 					return true
 				})
@@ -584,7 +593,9 @@ func altsAtCtx(c *Ctx, root, start *ir.FCtx, idx int, at0 ssa.Instruction, val s
 			}
 		}
 		if call != nil && depth < 6 {
-			if kid := ctx.Child(call); kid != nil && len(rets[kid]) > 0 {
+			// (the exported calculators and key builders of the types packages are the vocabulary rules are written in:
+			// their results are leaves, not alternatives to look into)
+			if kid := ctx.Child(call); kid != nil && len(rets[kid]) > 0 && !(c.altsStopVocab && ir.TypesVocabulary(kid.Fn)) {
 				for _, r2 := range rets[kid] {
 					expand(kid, r2, j, depth+1)
 				}
@@ -802,4 +813,128 @@ func collectedGuard(c *Ctx, raw *ir.Expr, m ir.Matcher) bool {
 		return true
 	})
 	return found && all
+}
+
+// guardedUp: the site stands under a guard over the given operands — in its own function, or, when the operands are
+// handed in (the step was moved into a helper that is given the record or the amounts), on every call chain from the
+// roots with the operands taken in the root's terms.
+func guardedUp(c *Ctx, f *ssa.Function, site ssa.Instruction, ops []*ir.Expr, mk func([]*ir.Expr) ir.Matcher, roots []*ssa.Function) bool {
+	w := c.W
+	if w.Guarded(f, site, mk(ops), 0) {
+		return true
+	}
+	mentionsParam := false
+	for _, o := range ops {
+		if o.Any(func(x *ir.Expr) bool { return x.Op == "param" }) {
+			mentionsParam = true
+		}
+	}
+	if !mentionsParam {
+		return false
+	}
+	tup := &ir.Expr{Op: "tuple", Args: ops}
+	n := 0
+	for _, root := range roots {
+		if root == f {
+			continue
+		}
+		for _, up := range w.OriginsUpTo(f, tup, root, 8) {
+			if len(up.Chain) == 0 || up.E.Op != "tuple" || len(up.E.Args) != len(ops) {
+				continue
+			}
+			n++
+			if !chainGuarded(c, root, up.Chain, site, mk(up.E.Args), 1) {
+				return false
+			}
+		}
+	}
+	return n > 0
+}
+
+// restrictAtSite: e describes a value used when instruction site of root executes. What the helpers called in root hand
+// back is described in e with all their alternatives merged; the alternatives that contradict how the flat view reaches
+// site (a verdict the caller tested and turned away, an `ok` that was false) are taken out again: every helper result of
+// root whose alternatives the facts at site narrow is replaced in e by the alternatives that remain.
+func restrictAtSite(c *Ctx, root *ssa.Function, site ssa.Instruction, e *ir.Expr) *ir.Expr {
+	if e == nil || site == nil || site.Parent() != root {
+		return e
+	}
+	type rep struct{ old, new *ir.Expr }
+	key := [2]any{root, site}
+	if c.restrictMemo == nil {
+		c.restrictMemo = map[[2]any][]any{}
+	}
+	reps, done := c.restrictMemo[key]
+	if !done {
+		w := c.W
+		fr := w.FlatRoot(root)
+		c.altsStopVocab = true
+		defer func() { c.altsStopVocab = false }()
+		var occ []ir.FPos
+		w.FlatWalk(fr, nil, nil, func(p ir.FPos) bool {
+			if p.Ctx == fr && p.In == site {
+				occ = append(occ, p)
+			}
+			return true
+		})
+		if len(occ) > 0 {
+			for _, b := range root.Blocks {
+				for _, in := range b.Instrs {
+					var u ssa.Value
+					switch x := in.(type) {
+					case *ssa.Extract:
+						if _, ok := x.Tuple.(*ssa.Call); ok {
+							u = x
+						}
+					case *ssa.Call:
+						if x.Call.Signature().Results().Len() == 1 {
+							u = x
+						}
+					}
+					if u == nil {
+						continue
+					}
+					alts := altsOfRoot(c, fr, 0, site, u)
+					if len(alts) < 2 {
+						continue
+					}
+					var keep []*ir.Expr
+					for _, a := range alts {
+						rt, isRet := a.Pos.In.(*ssa.Return)
+						if a.Pos.Ctx == fr || !isRet {
+							keep = append(keep, a.E)
+							continue
+						}
+						for _, p := range occ {
+							if p.ConsistentReturn(w, a.Pos.Ctx, rt) {
+								keep = append(keep, a.E)
+								break
+							}
+						}
+					}
+					if len(keep) > 0 && len(keep) < len(alts) {
+						reps = append(reps, rep{w.ExprOf(u), ir.MkPhi(keep)})
+					}
+				}
+			}
+		}
+		c.restrictMemo[key] = reps
+	}
+	// (a narrowed result may occur inside the description of another helper's result: later replacements are looked for
+	// in their narrowed form too)
+	rs := make([]rep, len(reps))
+	for i, r0 := range reps {
+		rs[i] = r0.(rep)
+	}
+	for i := range rs {
+		if rs[i].old.String() == rs[i].new.String() {
+			continue
+		}
+		e = ir.Replace(e, rs[i].old, rs[i].new)
+		for j := i + 1; j < len(rs); j++ {
+			rs[j].old = ir.Replace(rs[j].old, rs[i].old, rs[i].new)
+			rs[j].new = ir.Replace(rs[j].new, rs[i].old, rs[i].new)
+		}
+	}
+	return e
 }
